@@ -116,9 +116,19 @@ def run_utils(tier, v, sc, prefixes):
     stage_specs(sc)
     binary = os.path.join(sc, "pure.test")
     build_test("pure", binary, race=False)
-    record(binary, "TestRecordUtils$", sc, utils_env(tier))
+    record(binary, "TestRecordUtils$|TestRecordCtor$", sc, utils_env(tier))
     calls = os.path.join(sc, "utils_calls.ndjson")
     res, viol, drift = tlc_calls(sc, "PureUtils", "i", v, prefixes, timeout=3000)
+    # constructors of every discipline against PureCtor.tla: conformance only (no listed property is about option validation)
+    ctor = os.path.join(sc, "ctor_calls.ndjson")
+    if os.path.exists(ctor) and os.path.getsize(ctor):
+        try:
+            cres, _, cdrift = tlc_calls(sc, "PureCtor", "i", v, ("C_never",), timeout=600)
+            v.cov["constructor_conformance"] = dict(calls=cres.distinct, drift=len(cdrift), drift_samples=[(inv, line_of(ctor, idx)) for inv, idx in cdrift[:3]])
+            if cdrift:
+                v.notes.append("DRIFT (not a verdict): %d constructor calls differ from PureCtor.tla" % len(cdrift))
+        except Inconclusive as e:
+            v.notes.append("constructor conformance not evaluated: %s" % str(e)[:200])
     # other properties' invariants are not this check's business
     other = [x for x in drift]
     return calls, res, viol, other
